@@ -60,6 +60,10 @@ class CachePolicy(TlvModel):
 
 
 class LpPacketValue(TlvModel):
+    # Backward compatibility: a Fragment whose Length exceeds the LpPacket has always been accepted,
+    # cut at the end of the packet
+    _allow_length_overrun = True
+
     frag_index = UintField(LpTypeNumber.FRAG_INDEX)
     frag_count = UintField(LpTypeNumber.FRAG_COUNT)
     pit_token = BytesField(LpTypeNumber.PIT_TOKEN)
